@@ -8,6 +8,7 @@
    Not modelled (oracle on the real code only): the derive macro's two reading paths and its writer,
    delegated (scalar) record bodies, the Recon path; see MANIFEST (partial). *)
 From SwimV Require Import Model.MsgPack Proofs.MsgPackProofs Proofs.MsgPackRecordProofs Proofs.MsgPackTruncProofs.
+From SwimV Require Model.FormInt Proofs.FormIntProofs.
 Open Scope N_scope.
 
 (* every scalar value, of any size the format can carry, is read back unchanged from what was written,
@@ -58,3 +59,36 @@ Proof. exact record_witness. Qed.
 Example C16_nonvacuous : wf (MBigInt true 300) /\ wf (MNeg 129) /\ wf (MStr [104; 105]) /\
   dec_scalar (enc_scalar (MBigInt true 300)) = MOk (MBigInt true 300) [].
 Proof. exact wf_witness. Qed.
+
+(* ---- the integer Form types (Model/FormInt.v): i32, i64, u32, u64, usize, NonZeroUsize, BigInt, BigUint ---- *)
+
+(* the recognizer of a type accepts a number event exactly when the type holds the number, and produces that number,
+   whatever the kind of the event (i64 / u64 / big, signed or not) *)
+Theorem C16_integer_recognized_by_number : forall t v, ReconNum.well_kinded v = true ->
+  FormInt.recognize t v = FormIntProofs.by_number t (ReconNum.nz v).
+Proof. exact FormIntProofs.recognize_by_number. Qed.
+
+(* converting a value of an integer type to the model and back returns it unchanged *)
+Theorem C16_integer_model_roundtrip : forall t z, FormInt.in_ty t z = true ->
+  FormInt.try_from_value t (FormInt.to_value t z) = Some z.
+Proof. exact FormIntProofs.model_roundtrip. Qed.
+
+(* for every text, reading an integer type directly gives what parsing to the model first and converting gives: the two
+   paths agree on whether the text is accepted and on the value *)
+Theorem C16_integer_reading_paths_agree : forall t inp, FormInt.read_direct t inp = FormInt.read_via_model t inp.
+Proof. exact FormIntProofs.reading_paths_agree. Qed.
+
+(* a printed value of the type reads back by either path *)
+Theorem C16_integer_printed_reads_back : forall t z, FormInt.in_ty t z = true ->
+  FormInt.read_direct t (ReconNum.print_int z) = Some z /\ FormInt.read_via_model t (ReconNum.print_int z) = Some z.
+Proof. exact FormIntProofs.printed_value_reads_back. Qed.
+
+(* written as MessagePack and read back, a value of a fixed-width integer type is unchanged ... *)
+Theorem C16_integer_msgpack_roundtrip : forall t z, FormIntProofs.fixed_width t = true -> FormInt.in_ty t z = true ->
+  FormInt.read_msgpack t (FormInt.write_msgpack t z) = Some z.
+Proof. exact FormIntProofs.msgpack_roundtrip. Qed.
+
+(* ... and read as another integer type it is accepted exactly when that type holds the number *)
+Theorem C16_integer_msgpack_across_types : forall t u z, FormIntProofs.fixed_width t = true -> FormInt.in_ty t z = true ->
+  FormInt.read_msgpack u (FormInt.write_msgpack t z) = FormIntProofs.by_number u z.
+Proof. exact FormIntProofs.msgpack_across_types. Qed.
